@@ -6,7 +6,7 @@
 //! alphabet at every offset; nesting bombs; length bombs; version strings. Decoding must return Ok / Err.
 
 use super::c13;
-use crate::common::canon::canon_tir;
+use crate::common::canon::canon_tx as canon_tir;
 use crate::common::pipeline::{base_address, lower_source};
 use crate::common::{boundary_ints, tirb};
 use crate::engine::{hash64, panics, Outcome, Prop, Sink, Tier, Violation};
@@ -81,6 +81,11 @@ fn leaf_trees() -> Vec<(String, tir::Tx)> {
             .collect();
         out.push((format!("utxo set of {n}"), tirgen::place(2, tir::Expression::UtxoSet(set))));
     }
+    // several outputs of one transaction in one set (identity is the whole ref, not the txid)
+    let same_tx: std::collections::HashSet<_> = (0..3u32)
+        .map(|i| tirb::utxo(UtxoRef { txid: vec![0xAA; 32], index: i }, &base_address(1, 0), CanonicalAssets::from_naked_amount(1 + i as i128)))
+        .collect();
+    out.push(("utxo set of 3 outputs of one transaction".into(), tirgen::place(2, tir::Expression::UtxoSet(same_tx))));
     let mut empty = tirb::empty_tx();
     empty.validity = None;
     out.push(("empty tx".into(), empty));
@@ -139,16 +144,49 @@ fn bomb(shape: &str, n: usize) -> Vec<u8> {
             v
         }
         "indef-array" => vec![0x9f; n],
-        _ => {
+        "fees-field" => {
             // nested inside a plausible document: {"fees": [[[...
             let mut v = vec![0xa1, 0x64, b'f', b'e', b'e', b's'];
             v.extend(vec![0x81; n]);
             v
         }
+        "valid-list-nesting" => {
+            // well-shaped all the way down: {"fees": {"List": [{"List": [ ... "None" ... ]}]}}
+            let mut v = vec![0xa1, 0x64, b'f', b'e', b'e', b's'];
+            for _ in 0..n {
+                v.extend([0xa1, 0x64, b'L', b'i', b's', b't', 0x81]);
+            }
+            v.extend([0x64, b'N', b'o', b'n', b'e']);
+            v
+        }
+        "valid-negate-nesting" => {
+            // {"fees": {"EvalBuiltIn": {"Negate": {"EvalBuiltIn": {"Negate": ... {"Number": 1}}}}}}
+            let mut v = vec![0xa1, 0x64, b'f', b'e', b'e', b's'];
+            for _ in 0..n {
+                v.push(0xa1);
+                v.push(0x6b);
+                v.extend(b"EvalBuiltIn");
+                v.push(0xa1);
+                v.push(0x66);
+                v.extend(b"Negate");
+            }
+            v.push(0xa1);
+            v.push(0x66);
+            v.extend(b"Number");
+            v.push(0x01);
+            v
+        }
+        _ => {
+            // an unknown key is skipped by the decoder, whatever hangs below it
+            let mut v = vec![0xa1, 0x63, b'z', b'z', b'z'];
+            v.extend(vec![0x81; n]);
+            v.push(0x00);
+            v
+        }
     }
 }
 
-const BOMB_SHAPES: [&str; 5] = ["array", "map", "tag", "indef-array", "fees-field"];
+const BOMB_SHAPES: [&str; 8] = ["array", "map", "tag", "indef-array", "fees-field", "valid-list-nesting", "valid-negate-nesting", "unknown-key"];
 const BOMB_DEPTHS: [usize; 12] = [10, 100, 127, 128, 129, 255, 256, 257, 1_000, 10_000, 100_000, 1_000_000];
 
 impl Prop for C11 {
@@ -163,7 +201,7 @@ impl Prop for C11 {
             "round trip: every tirgen tree ({} contexts to depth 2 x 5 probes x {} placements), leaf sweeps (all boundary integers, byte / string / \
              address / hash lengths 0..65536, UTxO sets of 0..2 with datum and script, extreme amounts), every tx lowered from the corpus: \
              canonical(decode(encode(t))) = canonical(t) and equal reported parameters / queries. Garbage: for {} valid encodings every prefix, every \
-             single-bit flip and 18 byte substitutions at every offset; nesting bombs (5 shapes x 12 depths up to 10^6) alone and spliced into every \
+             single-bit flip and 18 byte substitutions at every offset; nesting bombs (8 shapes, three of them well-shaped IR all the way down or below an unknown key, x 12 depths up to 10^6) alone and spliced into every \
              field position of a valid document; length bombs; 6 version strings. Oracle: from_bytes returns Ok or Err (no panic / abort / hang, \
              4 GiB cap). Non-trivial = a decode was executed; distinct = distinct trees / (document, mutation family).",
             tirgen::contexts().len(),
